@@ -620,10 +620,65 @@ def make_goal(gs, env, vars_):
         return MinMaxGoal([build(t, env, vars_) for t in gs[1]], gs[2])
     if k == "maxmin":
         return MaxMinGoal([build(t, env, vars_) for t in gs[1]], gs[2])
-    g = MaxSMTGoal(real_weights=False)
-    for c, w in gs[1]:
-        g.add_soft_clause(build(c, env, vars_), env.formula_manager.Int(w))
+    real = len(gs) > 2 and bool(gs[2])
+    g = MaxSMTGoal(real_weights=real)
+    mgr = env.formula_manager
+    for i, (c, w) in enumerate(gs[1]):
+        # the same weight as a python int, an Int constant or (real goals) a Real constant
+        form = (i + len(gs[1])) % 3
+        wt = w if form == 0 else (mgr.Real(w) if (real and form == 1) else mgr.Int(w))
+        g.add_soft_clause(build(c, env, vars_), wt)
     return g
+
+
+def resolved_goals(spec):
+    """goal specs with ["same", i] (the i-th goal OBJECT passed again) replaced by the i-th spec"""
+    return [spec["goals"][g[1]] if g[0] == "same" else g for g in spec["goals"]]
+
+
+def smt_text(f):
+    """SMT-LIB text of an Int/Bool formula spec (for the script-built goals)"""
+    k = f[0]
+    if k == "v":
+        return ("c18_" if f[1] in ("x", "y") else "c18_b_") + f[1]
+    if k == "i":
+        return str(f[1]) if f[1] >= 0 else "(- %d)" % -f[1]
+    if k == "b":
+        return "true" if f[1] else "false"
+    names = {"le": "<=", "lt": "<", "ge": ">=", "gt": ">", "eq": "=", "iff": "="}
+    return "(%s %s)" % (names.get(k, k), " ".join(smt_text(a) for a in f[1:]))
+
+
+def script_goals(spec, env):
+    """The goals as pysmt builds them from a script: one assert-soft per soft clause, one :id per
+    MaxSMT goal, the groups interleaved; minimize / maximize for the other goals."""
+    from io import StringIO
+    from pysmt.smtlib.parser import SmtLibParser
+    rnd = random.Random(spec["order_seed"])
+    lines = []
+    for name, d in sorted(spec["vars"].items()):
+        lines.append("(declare-fun %s () %s)" % (smt_text(["v", name]), "Int" if d[0] == "int" else "Bool"))
+    for a in spec["assertions"]:
+        lines.append("(assert %s)" % smt_text(a))
+    queues = []
+    for i, g in enumerate(spec["goals"]):
+        if g[0] == "maxsmt":
+            queues.append(["(assert-soft %s :id goal%d :weight %d)" % (smt_text(c), i, w) if rnd.random() < 0.5 else
+                           "(assert-soft %s :weight %d :id goal%d)" % (smt_text(c), w, i) for c, w in g[1]])
+        else:
+            queues.append(["(%s %s)" % ("minimize" if g[0] == "min" else "maximize", smt_text(g[1]))])
+    # first occurrences in goal order, the rest interleaved at random (order inside a goal kept)
+    started = 0
+    while any(queues):
+        cands = [i for i, q in enumerate(queues) if q and i <= started]
+        i = rnd.choice(cands)
+        lines.append(queues[i].pop(0))
+        if i == started:
+            started += 1
+    text = "\n".join(lines) + "\n"
+    script = SmtLibParser(env).get_script(StringIO(text))
+    _, goals = script.get_last_formula(env.formula_manager, return_optimizations=True)
+    return list(goals), text
 
 
 def build_case(spec):
@@ -680,7 +735,12 @@ def build_case(spec):
     for p in spec["pushes"]:
         if p == len(b.assertions):
             b.opt.push()
-    b.goals = [make_goal(g, env, b.vars) for g in spec["goals"]]
+    if spec.get("script"):
+        b.goals, b.script_text = script_goals(spec, env)
+    else:
+        b.goals = []
+        for g in spec["goals"]:
+            b.goals.append(b.goals[g[1]] if g[0] == "same" else make_goal(g, env, b.vars))
     return b
 
 
@@ -718,10 +778,13 @@ def run_impl(b):
     """Runs the driver of the case on the implementation. Returns dict with result / exception,
     events, stack before and after."""
     import sys
+    import warnings
     old = sys.gettrace()
     sys.settrace(_tracer)
     try:
-        return _run_impl(b)
+        with warnings.catch_warnings():
+            warnings.simplefilter("ignore")
+            return _run_impl(b)
     finally:
         sys.settrace(old)
 
@@ -803,7 +866,11 @@ def check_property(b, out):
     if out["exc"] is not None:
         return [("exception", "the optimisation raised %s" % out["exc"])]
     feas = [a for a in b.opt.assignments if all(ev(f, a, op) for f in out["before"][0])]
-    fns = [goal_value_fn(b, g) for g in spec["goals"]]
+    G = resolved_goals(spec)
+    if len(b.goals) != len(G) or any(go.is_maxsmt_goal() and len(go.soft) != len(gs[1]) for go, gs in zip(b.goals, G) if gs[0] == "maxsmt"):
+        return [("script-goals", "the script yields goals %s, expected %d goals with %s soft clauses"
+                 % ([repr(x) for x in b.goals], len(G), [len(g[1]) for g in G if g[0] == "maxsmt"]))]
+    fns = [goal_value_fn(b, g) for g in G]
     res = out["result"]
     d = spec["driver"]
 
@@ -824,6 +891,12 @@ def check_property(b, out):
             bad.append(("none", "assertions are satisfiable but 'no solution' was reported"))
         else:
             items = [res] if d == "single" else [res.get(g) for g in b.goals]
+            if d == "boxed":
+                want = set(id(g) for g in b.goals)
+                have = [id(k) for k in res]
+                if len(have) != len(want) or set(have) != want:
+                    bad.append(("keys", "boxed: %d distinct goal objects were passed, the returned mapping has %d entries (%d of them are the passed objects): %s"
+                                % (len(want), len(have), len(set(have) & want), [repr(k) for k in res])))
             for i, it in enumerate(items):
                 if it is None:
                     bad.append(("missing", "boxed: goal %d has no entry" % i))
@@ -832,10 +905,10 @@ def check_property(b, out):
                 a = check_model(model, "goal %d" % i)
                 best = (max if fns[i][1] else min)(fns[i][0](x) for x in feas)
                 mv = fns[i][0](a)
-                cv = const_value(b, spec["goals"][i], cost)
+                cv = const_value(b, G[i], cost)
                 if mv != best:
                     bad.append(("optimum", "goal %d: objective value of the returned model is %s, the optimum is %s" % (i, mv, best)))
-                if cv != mv and not (spec["goals"][i][0] in ("minmax", "maxmin", "maxsmt") and False):
+                if cv != mv:
                     bad.append(("cost", "goal %d: returned cost %s differs from the objective value %s of the returned model" % (i, cv, mv)))
     elif d == "lex":
         if not feas:
@@ -852,7 +925,7 @@ def check_property(b, out):
                 best = (max if fns[i][1] else min)(fns[i][0](x) for x in cur)
                 exp.append(best)
                 cur = [x for x in cur if fns[i][0](x) == best]
-            got = [const_value(b, spec["goals"][i], c) for i, c in enumerate(costs)]
+            got = [const_value(b, G[i], c) for i, c in enumerate(costs)]
             if got != exp:
                 bad.append(("optimum", "lexicographic optimum is %s, returned %s" % (exp, got)))
             if [fns[i][0](a) for i in range(len(fns))] != got:
@@ -866,7 +939,7 @@ def check_property(b, out):
         got = []
         for model, costs in res:
             a = check_model(model, "pareto")
-            p = tuple(const_value(b, spec["goals"][i], c) for i, c in enumerate(costs))
+            p = tuple(const_value(b, G[i], c) for i, c in enumerate(costs))
             if tuple(f(a) for f, _ in fns) != p:
                 bad.append(("cost", "pareto: returned costs differ from the objective values of the returned model"))
             got.append(p)
@@ -967,6 +1040,8 @@ class Decoder(object):
 def case_literal(b, out):
     """Gallina literal of one case, or None if the run is not comparable (exception)."""
     if out["exc"] is not None:
+        return None
+    if any(g.is_maxsmt_goal() and g.real_weights() for g in b.goals):
         return None
     dec = Decoder(b)
     spec = b.spec
@@ -1233,6 +1308,95 @@ def real_wrap_checks(rnd, n, out, viol):
 
 
 # ----------------------------------------------------------------------------
+# family ALIAS: goal lists with equal-looking but distinct goals (and one object passed twice)
+# ----------------------------------------------------------------------------
+
+def alias_specs(rnd, tier):
+    """Multi-goal calls whose goals could be confused when used as dictionary keys / set members:
+    the same term in two goal objects, the same term with another direction / signedness, one
+    object passed twice, MaxSMT goals over the same clause SET with different multiplicities,
+    orders, weights, weight representations (int / Int / Real constant, real_weights flag),
+    repeated soft clauses inside one goal; the MaxSMT lists also as scripts (assert-soft with one
+    :id per goal, interleaved). Reference optimum per goal OBJECT by enumeration."""
+    specs = []
+    reps = 1 if tier == "quick" else 4
+    ivs = {"x": ["int", 0, 3], "p": ["bool"], "q": ["bool"]}
+    ibase = [["le", ["i", 0], ["v", "x"]], ["le", ["v", "x"], ["i", 3]]]
+    bvs = {"a": ["bv", 3], "b": ["bv", 3]}
+    X = ["v", "x"]
+    pool = [["eq", X, ["i", 0]], ["eq", X, ["i", 1]], ["eq", X, ["i", 2]], ["le", X, ["i", 1]], ["v", "p"], ["not", ["v", "p"]],
+            ["v", "q"], ["or", ["v", "p"], ["eq", X, ["i", 3]]], ["iff", ["v", "q"], ["eq", X, ["i", 2]]]]
+
+    def extra_asserts():
+        r = rnd.random()
+        if r < 0.5:
+            return []
+        if r < 0.75:
+            return [["or", ["not", ["v", "p"]], ["le", X, ["i", 1]]]]
+        return [["not", ["eq", X, ["i", rnd.randint(0, 3)]]]]
+
+    def variants(base):
+        """goals over the clause set of `base` (list of [clause, weight])"""
+        out = []
+        dup = [list(e) for e in base] + [list(rnd.choice(base)) for _ in range(rnd.choice([1, 1, 2]))]
+        rnd.shuffle(dup)
+        out.append(dup)                                       # other multiplicities
+        out.append([list(e) for e in reversed(base)])          # other order
+        out.append([[c, w + rnd.choice([1, 2])] for c, w in base])      # other weights
+        out.append([list(e) for e in base] + [[rnd.choice(pool), rnd.randint(1, 4)]])   # one more clause
+        out.append([list(e) for e in base])                    # an equal copy (distinct object)
+        return out
+
+    for _ in range(reps):
+        # (a) plain goals
+        for vs, base, terms, sgs in ((ivs, ibase, [X, ["+", X, ["i", 1]], ["ite", ["v", "p"], X, ["-", ["i", 2], X]]], [False]),
+                                     (bvs, [], [["v", "a"], ["bvadd", ["v", "a"], ["v", "b"]], ["bvxor", ["v", "a"], ["bv", 5, 3]]], [False, True])):
+            for t in terms:
+                for sg in sgs:
+                    lists = [[["min", t, sg], ["min", t, sg]], [["min", t, sg], ["max", t, sg]], [["max", t, sg], ["same", 0]],
+                             [["max", t, sg], ["max", t, sg], ["min", t, sg]], [["min", t, sg], ["same", 0], ["max", t, sg], ["same", 2]]]
+                    if vs is bvs:
+                        lists += [[["min", t, sg], ["min", t, not sg]], [["max", t, not sg], ["max", t, sg], ["same", 0]]]
+                    for goals in lists:
+                        for d in ("boxed", "boxed", "lex", "pareto"):
+                            specs.append({"vars": vs, "assertions": base + (extra_asserts() if vs is ivs else []), "pushes": [],
+                                          "goals": goals, "driver": d, "strategy": rnd.choice(["linear", "binary"]) if d != "pareto" else "linear",
+                                          "mode": rnd.choice(["sua", "incr"]), "order_seed": rnd.randrange(1 << 30)})
+        # (b) MaxSMT goals over one clause set, API-built, and (c) the same from scripts
+        for n in range(44):
+            base = [[c, rnd.randint(1, 4)] for c in rnd.sample(pool, rnd.choice([2, 2, 3]))]
+            vl = variants(base)
+            k = rnd.choice([2, 2, 3, 4])
+            soft_lists = [base] + rnd.sample(vl, k - 1)
+            if n % 4 == 0:
+                soft_lists = [base, vl[0]]                      # exactly: same set, other multiplicities
+            rnd.shuffle(soft_lists)
+            for script in (False, True):
+                real = [True] * len(soft_lists) if script else [rnd.random() < 0.3 for _ in soft_lists]
+                goals = [["maxsmt", sl, r] for sl, r in zip(soft_lists, real)]
+                if not script and rnd.random() < 0.3:
+                    goals.insert(rnd.randrange(len(goals) + 1), ["same", 0])
+                    goals = [g if g[0] != "same" or i > 0 else goals[1] for i, g in enumerate(goals)]
+                    goals = [g for i, g in enumerate(goals) if not (g[0] == "same" and i == 0)]
+                if rnd.random() < 0.3:
+                    goals.append([rnd.choice(["min", "max"]), X, False])
+                anyreal = any(g[0] == "maxsmt" and g[2] for g in goals)
+                sp = {"vars": ivs, "assertions": ibase + extra_asserts(), "pushes": [], "goals": goals, "driver": "boxed",
+                      "strategy": "linear" if anyreal else rnd.choice(["linear", "binary"]), "mode": rnd.choice(["sua", "incr"]),
+                      "order_seed": rnd.randrange(1 << 30)}
+                if script:
+                    sp["script"] = True
+                specs.append(sp)
+        # (d) one goal with repeated soft clauses
+        for n in range(24):
+            base = [[c, rnd.randint(1, 4)] for c in rnd.sample(pool, rnd.choice([2, 3]))]
+            specs.append({"vars": ivs, "assertions": ibase + extra_asserts(), "pushes": [], "goals": [["maxsmt", variants(base)[0], False]],
+                          "driver": "single", "strategy": rnd.choice(["linear", "binary"]), "mode": rnd.choice(["sua", "incr"]),
+                          "order_seed": rnd.randrange(1 << 30)})
+    return specs
+
+
+# ----------------------------------------------------------------------------
 # family BOX: one Int / BV variable of any magnitude, interval solver (no enumeration)
 # ----------------------------------------------------------------------------
 
@@ -1486,10 +1650,10 @@ def run(tier, only_specs=None):
                     k = per * (3 if driver == "single" else 1) * (2 if driver == "pareto" else 1)
                     for _ in range(k):
                         specs.append(gen_case(rnd, driver, strategy, mode))
-        fam = {"CONST": const_minmax_specs(rnd, tier), "BOX": box_specs(rnd, tier)}
+        fam = {"CONST": const_minmax_specs(rnd, tier), "BOX": box_specs(rnd, tier), "ALIAS": alias_specs(rnd, tier)}
         for name, l in fam.items():
             specs += l
-        chk.cov["families"] = {"GENERAL": len(specs) - sum(len(l) for l in fam.values()), "CONST": len(fam["CONST"]), "BOX": len(fam["BOX"])}
+        chk.cov["families"] = {"GENERAL": len(specs) - sum(len(l) for l in fam.values()), "CONST": len(fam["CONST"]), "BOX": len(fam["BOX"]), "ALIAS": len(fam["ALIAS"])}
         errs = interval_selfcheck(rnd, 60 if tier == "quick" else 400)
         for e in errs[:3]:
             chk.violation({"kind": "input", "what": "harness: the interval reference solver disagrees with plain evaluation: " + e}, key="harness:interval")
@@ -1502,7 +1666,7 @@ def run(tier, only_specs=None):
             continue
         wrap_cases(b, rnd, wraps, wviol)
         for g in spec["goals"]:
-            t = g[0] if g[0] in ("maxsmt", "minmax", "maxmin") else ("%s-%s" % (("bv-signed" if g[2] else "bv-unsigned") if ("bv" in json.dumps(g[1]) or spec["vars"].get("x", [""])[0] == "bv" and spec.get("solver") == "interval") else "int", g[0]))
+            t = g[0] if g[0] in ("maxsmt", "minmax", "maxmin", "same") else ("%s-%s" % (("bv-signed" if g[2] else "bv-unsigned") if ("bv" in json.dumps(g[1]) or spec["vars"].get("x", [""])[0] == "bv" and spec.get("solver") == "interval") else "int", g[0]))
             gk[t] = gk.get(t, 0) + 1
         if len(chk.cov["samples"]) < 4 and out["events"] and out["result"] is not None:
             chk.sample({"spec": spec, "result": str(out["result"])[:300], "solve_calls": sum(1 for e in out["events"] if e[0] == "solve")})
